@@ -374,3 +374,50 @@ def realise_multirule(item):
     if var % 3 == 1:
         form = form + g * g * inner(u, v) * dA       # same rule twice
     return {"form": form, "exact_ok": True, "case": item["mr"]}
+
+
+def realise_c05(item):
+    """Forms whose coefficients survive, drop out or are used by only some integrals; constants of several shapes."""
+    ensure_repo_on_path()
+    import basix.ufl as bu
+    import ufl
+    from ufl import derivative, ds, dx, grad, inner
+
+    v_ = item["c05"]
+    cell, var = v_["cell"], v_["variant"]
+    td = TDIM[cell]
+    rnd = random.Random(item["seed"])
+    dom = ufl.Mesh(bu.element("Lagrange", cell, 1, shape=(td,)))
+    kinds = ["P1", "P2", "vP1", "DG0"]
+    rnd.shuffle(kinds)
+    spaces = [ufl.FunctionSpace(dom, make_element(k, cell, td)) for k in kinds]
+    f = [ufl.Coefficient(S) for S in spaces]              # original coefficient order f0..f3
+    V = ufl.FunctionSpace(dom, make_element("P1", cell, td))
+    u, v = ufl.TrialFunction(V), ufl.TestFunction(V)
+    k0 = ufl.Constant(dom)
+    k1 = ufl.Constant(dom, shape=(td,))
+    k2 = ufl.Constant(dom, shape=(td, td))
+
+    def sc(g):                                            # a scalar out of any coefficient
+        return g if g.ufl_shape == () else g[0]
+
+    dA = dx(metadata=custom_md(cell, var))
+    dF = ds(metadata=custom_md(FACET_CELL[cell], var)) if cell != "interval" else ds
+    if var % 4 == 0:
+        # f1 cancels by differentiation (the functional is linear in it), f3 unused, f0 only on dx, f2 only on ds
+        u = ufl.TrialFunction(f[1].ufl_function_space())
+        F = sc(f[1]) * sc(f[0]) * v * dA + sc(f[2]) * sc(f[1]) * v * dF
+        form = derivative(F, f[1], u) + k0 * sc(u) * k2[0, td - 1] * v * dA
+    elif var % 4 == 1:
+        # f0 multiplied by zero, f2 differentiated away entirely, f1 and f3 used in different integrals
+        u = ufl.TrialFunction(f[2].ufl_function_space())
+        form = ((0 * sc(f[0]) + sc(f[1])) * sc(u) * v * dA + derivative(sc(f[2]) * v * dA, f[2], u)
+                + sc(f[3]) * k1[td - 1] * sc(u) * v * dF)
+    elif var % 4 == 2:
+        # all used, constants in mixed order, rank 1
+        form = (sc(f[3]) * k2[0, td - 1] + sc(f[0]) * k1[0]) * v * dA + sc(f[1]) * sc(f[2]) * k0 * v * dF
+    else:
+        # rank 0, only the last two coefficients survive
+        form = sc(f[2]) * sc(f[3]) * k1[0] * dA + sc(f[3]) * k2[td - 1, 0] * dF
+    fd = ufl.algorithms.compute_form_data(form, do_append_everywhere_integrals=False)
+    return {"form": form, "exact_ok": True, "case": v_, "expect_positions": list(fd.original_coefficient_positions)}
